@@ -2,6 +2,7 @@ package vf
 
 import (
 	"fmt"
+	"strings"
 )
 
 // baseSpace implements Build/Check shared by the container spaces.
@@ -24,6 +25,36 @@ func (b *baseSpace) newWorld() *World {
 		}
 	}
 	w.StrictErr = b.spec.Has("errors")
+	w.KeyOf = KeyOfDefault
+	if b.spec.Extra["kLim"] == 1 {
+		w.KeyUniverse = append(w.KeyUniverse, KeyOfDefault(100), KeyOfDefault(101))
+	}
+	// Key universe: every key an operation of this space can ever use on any map.
+	nScalar, nField := b.spec.Keys, 0
+	for _, cl := range b.spec.Classes {
+		for strings.HasPrefix(cl, "s:") {
+			cl = cl[2:]
+		}
+		if isContClass(cl) && cl[0] == 'M' {
+			n := 0
+			if i := strings.IndexByte(cl, ':'); i >= 0 && i+1 < len(cl) {
+				n = len(strings.Split(cl[i+1:], ","))
+			}
+			if strings.HasPrefix(cl, "Mc") {
+				if n > nField {
+					nField = n
+				}
+			} else if n > nScalar {
+				nScalar = n
+			}
+		}
+	}
+	for i := 0; i < nScalar; i++ {
+		w.KeyUniverse = append(w.KeyUniverse, w.KeyOf(i))
+	}
+	for i := 0; i < nField; i++ {
+		w.KeyUniverse = append(w.KeyUniverse, Str{fmt.Sprintf("f%d", i)})
+	}
 	return w
 }
 
@@ -109,6 +140,64 @@ func (s *arrSmall) Ops(w *World) []Op {
 	}
 	if s.spec.Has("events") {
 		ops = append(ops, Op{K: "commit", N: 1}, Op{K: "reopen"})
+	}
+	return ops
+}
+
+// KeyOfDefault: 0..99 scalars; 100 = string key exactly at the key inline limit; 101 = one byte over
+// (externalised key); 102.. = small string keys "K<n>".
+func KeyOfDefault(n int) MV {
+	_, _, _, _, _, maxKey := thresholds()
+	switch {
+	case n < 100:
+		return Scalar{uint64(n)}
+	case n == 100:
+		return Str{StrOfSize(maxKey, "K100.")}
+	case n == 101:
+		return Str{StrOfSize(maxKey+1, "K101.")}
+	}
+	return Str{fmt.Sprintf("K%d", n)}
+}
+
+// ---- map-small: closure over one root map with keys from a small universe -----------------
+
+type mapSmall struct {
+	baseSpace
+	keys []int
+}
+
+func init() {
+	RegisterSpace("map-small", func(s Spec) Space {
+		sp := &mapSmall{baseSpace: baseSpace{spec: s}}
+		sp.seed = []Op{{K: "newmap"}}
+		for i := 0; i < s.Keys; i++ {
+			sp.keys = append(sp.keys, i)
+		}
+		if s.Extra["kLim"] == 1 {
+			sp.keys = append(sp.keys, 100, 101)
+		}
+		return sp
+	})
+}
+
+func (s *mapSmall) Ops(w *World) []Op {
+	c := w.Conts[0]
+	var ops []Op
+	for _, k := range s.keys {
+		for _, cl := range s.spec.Classes {
+			ops = append(ops, Op{K: "mset", C: 0, Key: k, V: cl})
+		}
+	}
+	for _, k := range s.keys {
+		ops = append(ops, Op{K: "mremove", C: 0, Key: k})
+		ops = append(ops, Op{K: "mget", C: 0, Key: k})
+		ops = append(ops, Op{K: "mhas", C: 0, Key: k})
+	}
+	if len(c.Keys) > 0 {
+		ops = append(ops, Op{K: "pop", C: 0})
+	}
+	if c.TypeID == 42 {
+		ops = append(ops, Op{K: "settype", C: 0, N: 43})
 	}
 	return ops
 }
